@@ -50,3 +50,33 @@ package notify
 //@   at call SetMuted assert [marker-names] (called("TimeMuter).Mutes") && !ret("TimeMuter).Mutes")) ? len(arg3) > 0 : arg3 == nil
 //@   noeffect TimeMuter).Mutes SetMuted
 //@   assigns nothing
+
+// ---- C05 / C20: one integration's delivery inside a flush (ticker and select are abstracted: any interleaving of
+// ticks and context cancellation is allowed, so everything below holds for all of them).
+//@ spec resolvedAtN(a *alert.Alert, now time.Time) bool = a.EndsAt != 0 && a.EndsAt <= now
+//@ func (RetryStage).exec
+//@   props C05 C20
+//@   abstract
+//@   requires r.metrics != nil && l != nil && ctx != nil && tracer != nil
+//@            && r.metrics.notificationLatencySeconds != nil && r.metrics.numNotificationRequestsTotal != nil && r.metrics.numNotificationRequestsFailedTotal != nil
+//@   requires forall j int :: 0 <= j && j < len(alerts) ==> alerts[j] != nil
+//@   after call WithLabelValues assume res0 != nil
+//@   after call Logger).With assume res0 != nil
+//@   after call v5.NewTicker assume res0 != nil
+//@   after call v5.NewExponentialBackOff assume res0 != nil
+//@   at call Integration).Notify assert [send-resolved-sends-all] ret("Integration).SendResolved") ==> arg2 == alerts
+//@   at call Integration).Notify assert [no-resolved-when-off] !ret("Integration).SendResolved") ==> (forall i int :: 0 <= i && i < len(arg2) ==> arg2[i] != nil && !resolvedAtN(arg2[i], first("time.Now")))
+//@   at call Integration).Notify assert [sent-are-batch-alerts] forall i int :: 0 <= i && i < len(arg2) ==> (exists j int :: 0 <= j && j < len(alerts) && arg2[i] == alerts[j])
+//@   at call Integration).Notify assert [no-send-after-final-outcome] !called("Integration).Notify") || (ret1("Integration).Notify") != nil && ret("Integration).Notify"))
+//@   ensures [success-means-delivered] result2 == nil && called("Integration).Notify") && result1 != nil ==> ret1("Integration).Notify") == nil && result1 == alerts
+//@   ensures [unrecoverable-fails] called("Integration).Notify") && ret1("Integration).Notify") != nil && !ret("Integration).Notify") ==> result2 != nil
+//@   ensures [input-untouched] forall j int :: 0 <= j && j < len(alerts) ==> alerts[j] == old(alerts[j])
+//@   ensures [nothing-to-send] !called("Integration).Notify") && result2 == nil && result1 != nil ==> !ret("Integration).SendResolved") && result1 == alerts
+//@   loop 1 invariant rangeindex < len(alerts) && (sent == nil || fresh(sent)) && (called("time.Now") ==> first("time.Now") <= clock()) && (!called("time.Now") ==> len(sent) == 0)
+//@   loop 1 invariant forall i int :: 0 <= i && i < len(sent) ==> sent[i] != nil && !resolvedAtN(sent[i], first("time.Now")) && (exists j int :: 0 <= j && j < len(alerts) && sent[i] == alerts[j])
+//@   loop 1 invariant forall j int :: 0 <= j && j < len(alerts) ==> alerts[j] == old(alerts[j])
+//@   loop 2 invariant !called("Integration).Notify") || (ret1("Integration).Notify") != nil && ret("Integration).Notify"))
+//@   loop 2 invariant forall j int :: 0 <= j && j < len(alerts) ==> alerts[j] == old(alerts[j])
+//@   loop 2 invariant !ret("Integration).SendResolved") ==> (forall i int :: 0 <= i && i < len(sent) ==> sent[i] != nil && !resolvedAtN(sent[i], first("time.Now")))
+//@   loop 2 invariant !ret("Integration).SendResolved") ==> called("time.Now") || len(sent) == 0
+//@   noeffect Integration).Notify RecordEvent Integration).SendResolved Integration).String
